@@ -1,0 +1,62 @@
+package retriever
+
+import (
+	"encoding/json"
+	"strconv"
+	"strings"
+)
+
+// normalizeFragmentRecordNumbers replaces the json.Number values a fragment record was decoded with
+// (Decoder.UseNumber) by ordinary Go numbers: int64 when the literal is an integer that fits, float64
+// otherwise. Integers therefore survive a dump/load round trip exactly (float64 holds integers only up
+// to 2^53); every other number decodes to the same float64 as before.
+func normalizeFragmentRecordNumbers(record any) {
+	switch typed := record.(type) {
+	case *FragmentNode:
+		normalizeJSONNumbersInMap(typed.Properties)
+	case *FragmentEdge:
+		normalizeJSONNumbersInMap(typed.Properties)
+	}
+}
+
+func normalizeJSONNumbersInMap(values map[string]any) {
+	for key, value := range values {
+		values[key] = normalizeJSONNumbers(value)
+	}
+}
+
+func normalizeJSONNumbers(value any) any {
+	switch typed := value.(type) {
+	case json.Number:
+		return jsonNumberValue(typed)
+
+	case map[string]any:
+		normalizeJSONNumbersInMap(typed)
+		return typed
+
+	case []any:
+		for index, element := range typed {
+			typed[index] = normalizeJSONNumbers(element)
+		}
+		return typed
+
+	default:
+		return value
+	}
+}
+
+func jsonNumberValue(number json.Number) any {
+	literal := number.String()
+	if !strings.ContainsAny(literal, ".eE") && literal != "-0" {
+		if integer, err := strconv.ParseInt(literal, 10, 64); err == nil {
+			return integer
+		}
+	}
+
+	if float, err := number.Float64(); err == nil {
+		return float
+	}
+
+	// A literal encoding/json accepted but float64 cannot hold (overflow): keep the text.
+	return literal
+}
